@@ -34,21 +34,28 @@ claim('C02',
       'Same extracted transition relation (1 target x 2 transactions; thorough deeper): contracts "a merge needs Committed.Index == PrevIndex, '
       'stamps its own index, happens only in a proposal step", index fields never decrease in a step; BMC of ghost order monitors updated by '
       'the harness stores/device: merges in increasing index, no Set sent before its merge or before every earlier proposal finished applying, '
-      'Committed.Index never decreases, Applied <= Committed.',
-      PROTO_NOTE, 'SSA symbolic execution -> transition relation; SMT step contracts + bounded model checking (z3)', 'DESIGN.md 4, 6/C02')
+      'Committed.Index never decreases, Applied <= Committed; with device faults: a proposal reported APPLIED has had its change accepted by the '
+      'device (ghost). Waypoint chains (first transaction committed-not-applied, second failed / committed: one solver-chosen reachable state per '
+      'class, then every continuation of 14 steps) reach histories of ~46 steps.',
+      PROTO_NOTE, 'SSA symbolic execution -> transition relation; SMT step contracts + bounded model checking with waypoints (z3)', 'DESIGN.md 4, 6/C02')
 claim('C05',
       '(a) ModelPluginInfo.Validate chunking decided for EVERY document length 0..3*chunkSize+2 (contents unmaterialised, pure 64-bit offset '
       'arithmetic): chunks contiguous from 0, non-empty, <= chunkSize, cover the document, stream closed once, verdict propagated. '
       '(c) on the extracted v2 transition relation: a proposal becomes VALIDATED only with the plugin\'s acceptance in that step on top of the '
       'predecessor\'s commit and leaves the configuration untouched; a proposal\'s commit opens only in its transaction\'s commit phase; BMC: '
-      'a rejected change never becomes readable. (b) document = readable leaves is covered by the C18 tree checks.',
+      'a rejected change never becomes readable; the plugin refuses with any kind of error ModelPluginInfo.Validate can return (typed Invalid, '
+      'other typed error, raw gRPC status: symbolic per step). (b) document = readable leaves is covered by the C18 tree checks.',
       PROTO_NOTE, 'SSA symbolic execution + SMT (z3): arithmetic harness, step contracts, BMC', 'DESIGN.md 6/C05')
 claim('C06',
-      'Rollback requests for any index (missing, naming a rollback, an older change, the latest change) appended anywhere: BMC on the extracted '
+      '(a) data path: histories of 1..2 (thorough 3) Sets over the C03 universe (the last one possibly a request that deletes /a and writes '
+      '/a/b/c) go through the REAL proposal Initialize/Validate (rollback-value capture)/Commit/Apply phases, the real configuration store and a '
+      'device model; then the last change is rolled back by a real rollback proposal: Get (real handler) and the device show exactly the state '
+      'before that change (values and whole subtrees), and the same rollback requested again is refused and alters nothing; both map iteration '
+      'orders. (b) protocol: rollback requests for any index (missing, naming a rollback, an older change, the latest change) appended anywhere: BMC on the extracted '
       'relation with the real tree/southbound conversion code (no content cuts): a committed rollback always names the most recent committed '
       'change of its targets; after it the rolled-back leaf is neither readable nor on the connected device; waypoint-seeded queries extend '
       'the depth past the first applied change.',
-      PROTO_NOTE + ' Universe: every transaction writes its own leaf, so "previous state" is "leaf absent"; subtree restores are outside this check.',
+      PROTO_NOTE + ' In (b) every transaction writes its own leaf; subtree restores are decided by (a). Multi-target rollbacks: protocol side only.',
       'SSA symbolic execution -> transition relation; bounded model checking with waypoints (z3)', 'DESIGN.md 6/C06')
 claim('C07',
       'Process stops are a symbolic per-step parameter (after the j-th store/device call of the step every further call fails), budget 1 (quick) / '
@@ -67,7 +74,8 @@ claim('C08',
 claim('C09',
       'BMC deadlock-freedom on the extracted relation: for every schedule of <= depth steps, the reached state is not a fixed point of every '
       'Reconcile(id) (one probe copy of T per id, fault-free) while some accepted transaction with all targets connected is not final; contract: an '
-      'aborted proposal leaves both target indexes past itself. Watcher event->id maps and timers are assumed per the controller library contract.',
+      'aborted proposal leaves both target indexes past itself. Waypoint chains continue 14 steps from one reachable state per class of the '
+      'first two (thorough: three) transactions. Watcher event->id maps and timers are assumed per the controller library contract.',
       PROTO_NOTE, 'SSA symbolic execution -> transition relation; bounded model checking with fixed-point probes (z3)', 'DESIGN.md 6/C09')
 claim('C10',
       'Real mastership + configuration + proposal reconcilers with connection loss, device restart and re-connection under a new connection id '
@@ -83,11 +91,14 @@ claim('C11',
       PROTO_NOTE, 'SSA symbolic execution -> transition relation; SMT step contracts + BMC (z3)', 'DESIGN.md 6/C11')
 claim('C12',
       'Panic-site obligations of the real handlers: every nil dereference, index/slice bound, type assertion, nil-map write, regexp.MustCompile '
-      'reached by symbolic execution of Server.Set over shape-generic requests (optional/nil fields, 0..n elements, symbolic short names over an '
+      'reached by symbolic execution of Server.Set, Server.Subscribe and Server.Get (prefix absent / target only / with an element, 0..2 paths of 0..2 '
+      'elements from a pool of ordinary names, gNMI wildcards and regular-expression metacharacters, keys, every encoding and data type, '
+      'extensions, empty and populated configuration) over shape-generic requests (optional/nil fields, 0..n elements, symbolic short names over an '
       'alphabet with every byte the handlers treat specially, keys, extensions) is an obligation decided by z3; SAT = concrete request, replayed '
       'natively under recover().',
-      'Bounds: name/value lengths and element counts in evidence.bounds; currently the Set handler; Get/Subscribe/admin handlers are covered by '
-      'C03/C19 harnesses where registered. std-lib / protobuf / regexp-matching internals outside. Trusted: go/ssa, executor, z3.',
+      'Bounds: name/value lengths, pools and element counts in evidence.bounds; Capabilities and the admin service handlers are not covered; the '
+      'SYNCHRONOUS Get strategy (goroutines waiting for device sync) is outside. std-lib / protobuf / regexp-matching internals outside. '
+      'Trusted: go/ssa, executor, z3, gohelper (Go regexp compile).',
       'SSA symbolic execution, panic-site obligations + SMT (z3)', 'DESIGN.md 6/C12')
 claim('C18',
       'Real tree.PrunePathValues/PrunePathMap (v2 and v3) over a 12-node universe (containers, sibling leaves sharing a textual prefix, '
@@ -100,13 +111,15 @@ claim('C18',
       '(<= 5 paths per case). Trusted: go/ssa, executor, z3.',
       'SSA symbolic execution + SMT (z3) over a symbolic presence universe; case-split shapes for the tree', 'DESIGN.md 6/C18')
 claim('C03',
-      'Histories of Sets (one operation each: update of a leaf, delete of a leaf / container over a 7-node universe with sibling names sharing '
-      'textual prefixes and list keys 1/10) run through the REAL Set handler, the real proposal commit (AddDeleteChildren, applyChangeToConfig), '
-      'the REAL configurationStore (populate/store/PrunePathMap) over stub atomix maps and are read back by the REAL Get handler (wildcard regexp '
+      'Histories of Sets (one operation each: update of a leaf, delete of a leaf / container / list entry over an 8-node universe with sibling names sharing '
+      'textual prefixes and list keys 1/10; optionally followed by an unrelated Set or by ONE request that deletes /a and writes /a/b/c) run through the REAL '
+      'Set handler, the real proposal Initialize (status write) and Commit phases (AddDeleteChildren, applyChangeToConfig), the REAL configurationStore '
+      '(getTarget/populate/store/PrunePathMap) whose path-value primitives are resolved BY NAME as the atomix SDK does, with the map ranges of the code '
+      'under test running in both orders, and are read back by the REAL Get handler (wildcard regexp '
       'evaluated by Go\'s regexp via native call-out) with every query of a 7-query universe; compared after the history with a reference gNMI '
       'state machine on parsed elements: Get returns exactly the live leaves addressed at element boundaries with the last written value. '
       'Operation shapes are case-split (paths concrete), written values symbolic.',
-      'One operation per Set, history length 2 (quick) / 3 (thorough); atomix map contract stubbed (Get/List/transactional Insert/Update/Remove with '
+      'History length 2 (quick) / 3 (thorough) + the trailing Set; atomix map contract stubbed (Get/List/transactional Insert/Update/Remove with '
       'IfVersion); transaction initialisation (index stamping) emulated by the harness; PROTO Get only. Trusted: go/ssa, executor, z3, gohelper (Go regexp).',
       'SSA symbolic execution + SMT (z3), case-split operation histories vs reference model', 'DESIGN.md 6/C03')
 claim('C13',
@@ -143,9 +156,10 @@ claim('C04',
       'REAL proposal reconcileCommit/reconcileApply (AddDeleteChildren, PrunePathValues, PathValuesToGnmiChange), the REAL configuration store over '
       'stub atomix maps and a gNMI device model (deletes at element boundaries, then updates); then the device restarts empty, a new mastership '
       'term begins and the REAL configuration controller re-pushes: z3 proves the device holds exactly the stored live leaves with their values '
-      'both after the applies and after the re-push. The protocol side (re-push before any new change in a term, election ids) is decided on the '
+      'both after the applies and after the re-push; the last applied Set may be one request that deletes /a and writes /a/b/c; an optional further Set '
+      'that the device REFUSES (committed, apply FAILED) never reaches the device, not even through the re-push. The protocol side (re-push before any new change in a term, election ids) is decided on the '
       'extracted transition relation by C10.',
-      'One operation per Set, history 1..2 (quick) / 3 (thorough); device reachable during the history (offline / later connection is covered by '
+      'History 1..2 (quick) / 3 (thorough) + the refused Set; device reachable during the history (offline / later connection is covered by '
       'the C02/C10 transition-system checks); atomix map contract stubbed. Trusted: go/ssa, executor, z3.',
       'SSA symbolic execution + SMT (z3), case-split operation histories vs reference model', 'DESIGN.md 6/C04')
 claim('C15',
